@@ -153,6 +153,7 @@ using ContextArg = Ctx*;
 #endif
 
 struct EvA { int v; };
+struct EvB { long w; };   // a second event type: handled by the head and by the odd-numbered states only (machines without injections)
 struct QA { int v; };
 
 // --------------------------------------------------------------------------- trace
@@ -355,8 +356,10 @@ template <typename SELF, typename BASE> bool thisok(const BASE* self);
 // (with injections the names would be ambiguous, so only machines without any)
 #if VX_INJ_R == 0 && VX_INJ_S0 == 0 && VX_INJ_S1 == 0 && VX_INJ_S2 == 0 && VX_INJ_S3 == 0
 #define VX_USING_BASE_HANDLERS using Base::preReact; using Base::react; using Base::postReact; using Base::query;
+#define VX_EVB 1
 #else
 #define VX_USING_BASE_HANDLERS
+#define VX_EVB 0
 #endif
 template <int I, int J> struct Inj : FSM::State { VX_CALLBACKS_INJ(St<I>, Inj, I, J) };
 template <int J> struct RInj : FSM::State { VX_CALLBACKS_INJ(Rt, RInj, ROOT, J) };
@@ -375,8 +378,25 @@ template <> struct RtBase<3> { using Type = FSM::StateT<RInj<1>, RInj<2>, RInj<3
 static constexpr int INJ_OF[8] = {VX_INJ_S0, VX_INJ_S1, VX_INJ_S2, VX_INJ_S3, 0, 0, 0, 0};
 static constexpr int INJ_ROOT = VX_INJ_R;
 
-template <int I> struct St : StBase<I, INJ_OF[I]>::Type {
-	using Base = typename StBase<I, INJ_OF[I]>::Type;
+#if VX_EVB
+// handlers for the second event type live one level below the state class (odd-numbered states only); the state re-exports them next
+// to its own EvA handlers and the library's catch-all templates
+template <int I, bool ODD> struct EvBPart : StBase<I, INJ_OF[I]>::Type { using Below = typename StBase<I, INJ_OF[I]>::Type; using Below::preReact; using Below::react; using Below::postReact; using Below::query; };
+template <int I> struct EvBPart<I, true> : StBase<I, INJ_OF[I]>::Type {
+	using Below = typename StBase<I, INJ_OF[I]>::Type; using FullControl = typename Below::FullControl;
+	using Below::preReact; using Below::react; using Below::postReact; using Below::query;
+	void preReact(const EvB& ev, FullControl& c) { visit_full(c, I, 0, M_PRE_REACT, VX_THISOK(St<I>, EvBPart), &ev); }
+	void react(const EvB& ev, FullControl& c) { visit_full(c, I, 0, M_REACT, VX_THISOK(St<I>, EvBPart), &ev); }
+	void postReact(const EvB& ev, FullControl& c) { visit_full(c, I, 0, M_POST_REACT, VX_THISOK(St<I>, EvBPart), &ev); }
+};
+template <int I> struct StParent { using Type = EvBPart<I, (I % 2) == 1>; };
+#else
+template <int I> struct StParent { using Type = typename StBase<I, INJ_OF[I]>::Type; };
+#endif
+inline bool own_defined_evb(int sid) { return VX_EVB && (sid == 255 || (sid % 2) == 1); }
+
+template <int I> struct St : StParent<I>::Type {
+	using Base = typename StParent<I>::Type;
 	using GuardControl = typename Base::GuardControl; using PlanControl = typename Base::PlanControl;
 	using FullControl = typename Base::FullControl; using ConstControl = typename Base::ConstControl;
 	VX_USING_BASE_HANDLERS
@@ -414,6 +434,11 @@ struct Rt : RtBase<INJ_ROOT>::Type {
 	VX_USING_BASE_HANDLERS
 	VX_CALLBACKS(Rt, Rt, ROOT, 0)
 	VX_PLAN_CALLBACKS(Rt, Rt, ROOT, 0)
+#if VX_EVB
+	void preReact(const EvB& ev, FullControl& c) { visit_full(c, ROOT, 0, M_PRE_REACT, VX_THISOK(Rt, Rt), &ev); }
+	void react(const EvB& ev, FullControl& c) { visit_full(c, ROOT, 0, M_REACT, VX_THISOK(Rt, Rt), &ev); }
+	void postReact(const EvB& ev, FullControl& c) { visit_full(c, ROOT, 0, M_POST_REACT, VX_THISOK(Rt, Rt), &ev); }
+#endif
 	uint8_t vx_entered = 0;
 };
 #endif
